@@ -119,3 +119,16 @@ pub fn short(s: &str, n: usize) -> String {
     }
     format!("{}…(+{} bytes)", &s[..e], s.len() - e)
 }
+
+/// boundary-safe excerpt of `s` around byte `off`
+pub fn excerpt(s: &str, off: usize, radius: usize) -> String {
+    let mut a = off.saturating_sub(radius).min(s.len());
+    while !s.is_char_boundary(a) {
+        a -= 1;
+    }
+    let mut b = (off + radius).min(s.len());
+    while !s.is_char_boundary(b) {
+        b += 1;
+    }
+    s[a..b].to_string()
+}
